@@ -176,6 +176,21 @@ PLAN = {
         quick=[rapid("prop", "TestProp", 5000)],
         thorough=[rapid("prop", "TestProp", 40000, shards=16)],
     ),
+    "C13": dict(
+        pkg="c13",
+        rule=("exhaustive: each of the 48 (owner kind x time x target) registrations singly and every ordered pair (2304), made at every registration point (before, between and after the build operations) of 4 small shapes "
+              "(with/without header, 0..2 cells, separator, a pending row filled before and after attach, a late Row.Add, a zero-cell row), followed by two render passes; plus rapid-generated histories of up to 16 (thorough 28) steps interleaving build operations, "
+              "registrations on table/column(incl. 0)/row(pending or attached)/cell/header cell and render passes (InvokeRenderCallbacks or a csv render), on tables created through core and wrapper constructors. Callbacks are recorders: they log (registration, identity of the object handed over) "
+              "and write a marker property on it. Oracle: a firing table transcribed from the statement predicts, for the specified slots, the exact sequence of (slot, target) groups per operation and per pass (registration order inside one slot is not compared); "
+              "the object handed over must be a live object of the table (pointer identity); the marker must be readable afterwards through table.GetProperty / Column(n) / the row / CellAt; unsupported owner/target combinations must be refused and all others accepted. "
+              "Slots the statement leaves open (table-itself RENDER, row callbacks at render time on the table, RENDER on row/column cell sets, PRE/POST on a cell, column 0, column-level firing on header cells, add-time firing for the header row, late-added cells for table/column add callbacks) are filtered out. "
+              "Non-trivial: registrations on two owner kinds, or registration before the rows exist, or two render passes. Distinct: FNV-64 of the history."),
+        level_text="Exhaustive enumeration of the registration matrix (singly and in pairs) on small shapes plus model-based stateful property testing of longer histories, against a firing model written from the statement. Exploration level; complete within the enumerated bound.",
+        level_note="Trusts the firing model in c13.go (predictOp/predictRender/specified). Only slots the statement fixes are compared.",
+        technique="exhaustive enumeration of registrations x shapes + model-based stateful property testing (rapid) against a firing model",
+        quick=[enum("matrix", "TestEnum", shards=8), rapid("prop", "TestProp", 10000)],
+        thorough=[enum("matrix", "TestEnum", shards=8), rapid("prop", "TestProp", 40000, shards=16)],
+    ),
     "C18": dict(
         pkg="c18",
         rule=("strings built from a width-hostile token alphabet (newlines leading/trailing/repeated, CJK wide, full-width, combining, zero-width, emoji ZWJ/flag/skin-tone sequences, "
